@@ -18,7 +18,9 @@ RULE = (
     "AddValueToZero x target in {matrix, weights, both} x their parameters; CenitDistanceMatrixScaler, CenitDistance; "
     "EqualWeighter, StdWeighter, EntropyWeighter, CRITIC, Critic x parameters; NegateMinimize, InvertMinimize, "
     "MinimizeToMaximize; Filter, FilterGT/GE/LT/LE/EQ/NE, FilterIn/NotIn with thresholds drawn from the column, "
-    "FilterNonDominated x strict; SimpleImputer, KNNImputer, IterativeImputer x parameters on matrices with missing cells) "
+    "FilterNonDominated x strict; the callables of a function-based Filter answer with a boolean mask or with a NON-boolean "
+    "0/1 mask (np.where(c, 1, 0), c.astype(int / uint8 / float)) or are `lambda e: e` over a 0/1 indicator criterion - every "
+    "mask form x {all-int, all-float, mixed} matrix x {exactly one, two or three} criteria in every run; SimpleImputer, KNNImputer, IterativeImputer x parameters on matrices with missing cells) "
     "and user transformers made with `mktransformer` that return a random subset of {matrix, objectives, weights, dtypes, "
     "alternatives, criteria} (+ `hparams`, `dtypes: None`; both signature styles). Every input is inside the numeric domain "
     "of the steps by construction (positive where a division needs it, no constant column for range/variance based steps, "
@@ -49,6 +51,9 @@ INVERTERS = ["NegateMinimize", "InvertMinimize", "MinimizeToMaximize"]
 ARITH = ["GT", "GE", "LT", "LE", "EQ", "NE"]
 BYCRIT = ARITH + ["In", "NotIn", "Fn"]
 IMPUTERS = ["SimpleImputer", "KNNImputer", "IterativeImputer"]
+# what the callable of a function-based `Filter` answers with: a boolean mask, or a 0/1 mask that is not boolean
+# (np.where(cond, 1, 0), cond.astype(int / uint8 / float)), or the 0/1 indicator criterion itself (lambda e: e)
+MASK_FORMS = ["bool", "where", "astype", "uint8", "float", "indicator"]
 FAMILY = {"scaler": "targetSwitch", "cenit": "cenit", "weighter": "weighter", "inverter": "inverter", "filter": "filter",
           "nondom": "nonDominated", "imputer": "imputer", "user": "user"}
 
@@ -161,7 +166,8 @@ def _filter_spec(rng, dm, cls=None, keep_at_least=0):
             elif cls in ("In", "NotIn"):
                 v = [_threshold(rng, col) for _ in range(rng.randint(1, 3))]
             else:
-                v = [rng.choice(["gt", "ge", "lt", "le", "ne"]), float(_threshold(rng, col))]
+                v = [rng.choice(["gt", "ge", "lt", "le", "ne"]), float(_threshold(rng, col)),
+                     rng.choice(["bool", "bool", "where", "astype", "uint8", "float"])]
             conds.append([c, v])
         ignore = rng.random() < 0.4
         if ignore and rng.random() < 0.5:
@@ -181,7 +187,47 @@ def _sat(cls, x, v):
         return any(x == C.F(u) for u in v)
     if cls == "NotIn":
         return all(x != C.F(u) for u in v)
+    if v[0] == "id":  # the criterion itself is the mask: non-zero = keep
+        return x != 0
     return _sat(v[0].upper(), x, v[1])
+
+
+def _fn_mask_case(rng, form, dtypes, nk):
+    """a function-based `Filter` over exactly `nk` present criteria; the callable of the first one answers with a mask of
+    the given form, the others with any form. `indicator` turns the criterion into a 0/1 column used as `lambda e: e`."""
+    dm = _dm(rng, positive=rng.random() < 0.6, min_m=3 if rng.random() < 0.9 else 1, min_n=nk, dtypes=dtypes)
+    crits, m = dm["criteria"], len(dm["matrix"])
+    keys = rng.sample(crits, nk)
+    conds = []
+    for i, c in enumerate(keys):
+        j = crits.index(c)
+        f = form if i == 0 else rng.choice(MASK_FORMS)
+        if f == "indicator":
+            col = [rng.randint(0, 1) for _ in range(m)]
+            if m >= 2 and len(set(col)) == 1:
+                col[rng.randrange(m)] = 1 - col[0]
+            for r, x in zip(dm["matrix"], col):
+                r[j] = x if dm["dtypes"][j] == "int64" else float(x)
+            conds.append([c, ["id", 0.0, "indicator"]])
+        else:
+            col = [row[j] for row in dm["matrix"]]
+            conds.append([c, [rng.choice(["gt", "ge", "lt", "le", "ne"]), float(_threshold(rng, col)), f]])
+    ignore = rng.random() < 0.4
+    if ignore and rng.random() < 0.5:  # an absent criterion is skipped: still `nk` conditions in use
+        conds.insert(rng.randrange(len(conds) + 1), ["no_such_criterion", conds[0][1]])
+    return dm, {"k": "filter", "cls": "Fn", "conds": conds, "ignore": ignore}
+
+
+def _fn_mask_cases(rng, rounds):
+    """every mask form x {all-int, all-float, mixed} matrix x {one, two-or-more} criteria"""
+    out = []
+    for _ in range(rounds):
+        for form in MASK_FORMS:
+            for dtypes in ("int", "float", "mixed"):
+                for nk in (1, 1, rng.choice([2, 2, 3])):
+                    dm, spec = _fn_mask_case(rng, form, dtypes, nk)
+                    out.append({"dm": dm, "steps": [spec], "pipe": rng.random() < 0.33})
+    return out
 
 
 def _survivors(dm, spec):
@@ -325,10 +371,11 @@ def _every_builtin(rng):
     return [{"dm": dm, "steps": [spec], "pipe": rng.random() < 0.33} for dm, spec in out]
 
 
-def _random_cases(rng, n_sweeps, n_user, n_pipe):
+def _random_cases(rng, n_sweeps, n_user, n_pipe, n_mask=1):
     cases = []
     for _ in range(n_sweeps):
         cases.extend(_every_builtin(rng))
+    cases.extend(_fn_mask_cases(rng, n_mask))
     for _ in range(n_user):
         dm, spec = _single(rng, "user")
         cases.append({"dm": dm, "steps": [spec], "pipe": rng.random() < 0.33})
@@ -339,11 +386,11 @@ def _random_cases(rng, n_sweeps, n_user, n_pipe):
 
 def gen(ctx):
     rng = ctx.rng
-    return [{"table": True}] + _random_cases(rng, ctx.n(5, 70), ctx.n(70, 1000), ctx.n(110, 1600))
+    return [{"table": True}] + _random_cases(rng, ctx.n(5, 70), ctx.n(70, 1000), ctx.n(110, 1600), ctx.n(2, 20))
 
 
 def search_gen(ctx):
-    return _random_cases(ctx.rng, 12, 150, 250)
+    return _random_cases(ctx.rng, 12, 150, 250, 3)
 
 
 # --------------------------------------------------------------------------- implementation side
@@ -351,7 +398,20 @@ def search_gen(ctx):
 _FN = {
     "gt": lambda t: (lambda e: e > t), "ge": lambda t: (lambda e: e >= t), "lt": lambda t: (lambda e: e < t),
     "le": lambda t: (lambda e: e <= t), "ne": lambda t: (lambda e: e != t),
+    "id": lambda t: (lambda e: e),
 }
+
+
+def _mask_fn(v):
+    """the callable of a function-based filter: [op, threshold] (boolean) or [op, threshold, mask form]"""
+    cond = _FN[v[0]](v[1])
+    form = v[2] if len(v) > 2 else "bool"
+    if form in ("bool", "indicator"):
+        return cond
+    if form == "where":
+        return lambda e: np.where(cond(e), 1, 0)
+    to = {"astype": int, "uint8": np.uint8, "float": float}[form]
+    return lambda e: cond(e).astype(to)
 
 
 def build_dm(d):
@@ -475,7 +535,7 @@ def build_step(spec, idx, record):
             elif spec["cls"] in ("In", "NotIn"):
                 d[c] = list(v)
             else:
-                d[c] = _FN[v[0]](v[1])
+                d[c] = _mask_fn(v)
         klass = filters.Filter if spec["cls"] == "Fn" else getattr(filters, "Filter" + spec["cls"])
         return klass(d, ignore_missing_criteria=spec["ignore"])
     if k == "user":
@@ -801,6 +861,10 @@ def tags(case, obs):
             t.append("cls:%s/%s" % (s["cls"], s["target"]))
         elif s["k"] == "filter":
             t.append("cls:Filter" + ("" if s["cls"] == "Fn" else s["cls"]))
+            if s["cls"] == "Fn":
+                used = [v for c, v in s["conds"] if c in case["dm"]["criteria"]]
+                for v in used:
+                    t.append("fn-mask:%s/%s" % (v[2] if len(v) > 2 else "bool", "one-criterion" if len(used) == 1 else "several-criteria"))
         elif s["k"] == "nondom":
             t.append("cls:FilterNonDominated")
         elif s["k"] == "user":
